@@ -7,6 +7,7 @@ import Pyunicorn.Lemmas.NsiEig
 import Pyunicorn.Lemmas.NsiArenasReg
 import Pyunicorn.Lemmas.NsiComp
 import Pyunicorn.Lemmas.NsiCompInv
+import Pyunicorn.Lemmas.NsiCompArenas
 import Pyunicorn.Model.NsiMeasures
 /-!
 # C02 — Node-splitting invariance of all n.s.i. measures
@@ -688,6 +689,73 @@ example : newmanWrapped compG true = some [9, 9, 16, 16, 4] ∧
     newmanWrapped (split compG 2 (1/4)) true = some [9, 9, 16, 16, 4, 16] ∧
     newmanWrapped (split compG 4 (1/4)) true = some [9, 9, 16, 16, 4, 4] ∧
     newmanWrapped (split compG 4 (1/4)) false = some [0, 0, 0, 0, 0, 0] := by
+  decide +kernel
+
+
+/-- **Node-splitting invariance of `nsi_arenas_betweenness` as the wrapper computes it, on every
+loop-free network with positive node weights — connected or not**, both values of
+`exclude_neighbors`, for a stopping rule `sigOf` given as a function of the sub-network that reads
+only its node range, pulls back under a split and is 1 on a complete network.  `Vof H i` stands for
+`splu(1 − sp_Pi).solve(sp_Pi)` on the sub-network `H` (any solutions; the systems of the new
+component regular — `arenas_systems_regular` gives that when the stopping rule is in `[0,1]` with
+unit diagonal, since a component is connected).  The three cases of the loop as for the
+Newman-type measure; an isolated node becomes a pair of twins on which the walk stops at once
+(value 0 on both sides). -/
+theorem nsi_arenas_betweenness_wrapper_split (G : Gr) (v : Nat) (p : Rat) (hv : v < G.n)
+    (hp0 : 0 < p) (hp1 : p < 1) (hw : ∀ k, k < G.n → 0 < G.w k) (hloop : ∀ i, G.adj i i = false)
+    (sigOf : Gr → Nat → Nat → Rat) (Vof : Gr → Nat → Nat → Nat → Rat)
+    (hsigcongr : ∀ H H', RangeEq H H' → ∀ a b, a < H.n → b < H.n → sigOf H a b = sigOf H' a b)
+    (hsigsplit : ∀ (H : Gr) (k : Nat), k < H.n → ∀ a b,
+      sigOf (split H k p) a b = sigOf H (collapse H.n k a) (collapse H.n k b))
+    (hsigcomplete : ∀ K : Gr, (∀ k, k < K.n → 0 < K.w k) →
+      (∀ i j, i < K.n → j < K.n → aplus K i j = 1) →
+      ∀ i j, i < K.n → j < K.n → sigOf K i j = 1)
+    (hVcongr : ∀ H H', RangeEq H H' → ∀ i s j, i < H.n → s < H.n → j < H.n →
+      Vof H i s j = Vof H' i s j)
+    (excl : Bool) (a : Nat) (ha : a < G.n + 1)
+    (hV : ∀ i, i < (subGr G (compNodes G (collapse G.n v a))).n →
+      ArenasSolves (subGr G (compNodes G (collapse G.n v a)))
+        (sigOf (subGr G (compNodes G (collapse G.n v a)))) i
+        (Vof (subGr G (compNodes G (collapse G.n v a))) i))
+    (hV' : ∀ i, i < (subGr (split G v p) (compNodes (split G v p) a)).n →
+      ArenasSolves (subGr (split G v p) (compNodes (split G v p) a))
+        (sigOf (subGr (split G v p) (compNodes (split G v p) a))) i
+        (Vof (subGr (split G v p) (compNodes (split G v p) a)) i))
+    (hreg : ∀ i, i < (subGr (split G v p) (compNodes (split G v p) a)).n →
+      ArenasRegular (subGr (split G v p) (compNodes (split G v p) a))
+        (sigOf (subGr (split G v p) (compNodes (split G v p) a))) i) :
+    arenasAt (split G v p) sigOf Vof excl a = arenasAt G sigOf Vof excl (collapse G.n v a) :=
+  arenasAt_split G v p hv hp0 hp1 hw hloop sigOf Vof hsigcongr hsigsplit hsigcomplete hVcongr excl
+    a ha hV hV' hreg
+
+/-- both stopping rules of the library satisfy the three conditions on `sigOf`:
+`stopping_mode="neighbors"` (`1`) trivially, `"twinness"` (`subnet.nsi_twinness()`) by
+`eval_split`, range-only evaluation and `twinness = 1` on a complete network -/
+theorem stopping_rules_admissible (p : Rat) :
+    (let sigOf : Gr → Nat → Nat → Rat := fun H a b => eval H [a, b] M.nsiTwinness
+     (∀ H H', RangeEq H H' → ∀ a b, a < H.n → b < H.n → sigOf H a b = sigOf H' a b) ∧
+     (∀ (H : Gr) (k : Nat), k < H.n → ∀ a b,
+        sigOf (split H k p) a b = sigOf H (collapse H.n k a) (collapse H.n k b)) ∧
+     (∀ K : Gr, (∀ k, k < K.n → 0 < K.w k) → (∀ i j, i < K.n → j < K.n → aplus K i j = 1) →
+        ∀ i j, i < K.n → j < K.n → sigOf K i j = 1)) :=
+  ⟨fun _ _ h a b ha hb => twinness_congr h a b ha hb,
+    fun H k hk a b => by simpa using eval_split H k p hk M.nsiTwinness [a, b],
+    fun K hw hall i j hi hj => twinness_complete K hw hall i j hi hj⟩
+
+/-- non-vacuity: path 0–1–2–3 | link 4–5; the inner nodes of the path have non-zero values, and
+splitting node 1 leaves all values unchanged with the twin carrying node 1's -/
+def compG2 : Gr :=
+  { n := 6, adj := fun i j => (i, j) ∈ [(0, 1), (1, 0), (1, 2), (2, 1), (2, 3), (3, 2), (4, 5), (5, 4)],
+    w := fun k => [1, 2, 3, 1, 2, 1].getD k 0, la := fun _ _ _ => 0, grp := fun _ _ => false,
+    dist := fun _ _ => none }
+
+example : arenasWrapped (split compG2 1 (1/4)) false true
+      = (arenasWrapped compG2 false true).map (fun l => l ++ [l.getD 1 0]) ∧
+    arenasWrapped (split compG2 1 (1/4)) true false
+      = (arenasWrapped compG2 true false).map (fun l => l ++ [l.getD 1 0]) ∧
+    (arenasWrapped compG2 false true).isSome = true ∧
+    ((arenasWrapped compG2 false true).getD []).getD 1 0 ≠ 0 ∧
+    compList (split compG2 1 (1/4)) = [[0, 1, 2, 3, 6], [4, 5]] := by
   decide +kernel
 
 /-! ### round 5: `nsi_eigenvector_centrality`
